@@ -52,7 +52,7 @@ def warm():
 
 # ------------------------------------------------------------------------------------------------ generation
 STEMS = ["report", "data set", "Notes", "a", "ünï", "x-1", "UPPER", "v1.2", "readme", "2024_q1"]
-DIRS = ["", "", "docs/", "docs/sub/", "a b/", "Ünï/"]
+DIRS = ["", "", "docs/", "docs/sub/", "a b/", "Ünï/", "./", "./docs/"]
 
 
 def gen_case(rng: random.Random, tier: str) -> dict:
